@@ -762,7 +762,8 @@ class FourierTransformBase(Operator):
             Dimensions along which to take the transform.
             Default: all axes
         sign : {'-', '+'}, optional
-            Sign of the complex exponent. Default: '-'
+            Sign of the complex exponent.
+            Default: ``'-'``, or ``'+'`` if ``inverse`` is ``True``
         halfcomplex : bool, optional
             If ``True``, calculate only the negative frequency part
             along the last axis for real input. If ``False``,
@@ -850,7 +851,8 @@ class FourierTransformBase(Operator):
         else:
             raise NotImplementedError('non-uniform grids not yet supported')
 
-        sign = kwargs.pop('sign', '-')
+        # The inverse of the default forward transform (sign '-') has sign '+'
+        sign = kwargs.pop('sign', '+' if inverse else '-')
         if sign not in ('+', '-'):
             raise ValueError("`sign` '{}' not understood".format(sign))
         fwd_sign = ('-' if sign == '+' else '+') if inverse else sign
